@@ -15,7 +15,8 @@ tvars == <<G, l, sid, used, failed>>
 ToSet(s) == {s[k] : k \in DOMAIN s}
 Supported == IF ShapesFile = "" THEN {} ELSE ToSet(JsonDeserialize(ShapesFile).shapes)
 
-MyKF == {"KF_C01_MultiLabelUnion"}
+MyKF == {"KF_C01_MultiLabelUnion", "KF_C01_MultiLabelCountMin", "KF_C01_RelIsoPerPathOnly",
+         "KF_C01_KeysCompareStructurally", "KF_C01_VarLengthReachability"}
 Cand == SUBSET (OpenKF \cap MyKF)
 \* ideal first; deviations only when the ideal semantics does not explain the outcome
 Judge(P(_)) == IF P({}) THEN KFs({}) ELSE \E D \in Cand \ {{}} : P(D) /\ KFs(D)
